@@ -184,6 +184,7 @@ class FileCache(TileCacheBase):
         # its own modification time is the time this tile was stored.
         if (self.link_single_color_images == 'hardlink' and os.path.exists(tile_loc)
                 and os.path.samefile(real_tile_loc, tile_loc)):
+            self._set_stored_metadata(tile, tile_loc)
             return
 
         # Create the link under a temporary name and rename it over tile_loc
@@ -205,7 +206,18 @@ class FileCache(TileCacheBase):
                 pass
             raise ex
 
+        self._set_stored_metadata(tile, tile_loc)
         return
+
+    def _set_stored_metadata(self, tile, tile_loc):
+        """
+        A tile that was linked to an existing single color file did not pass
+        `tile_buffer`: set ``.timestamp`` and ``.size`` to what is now stored at
+        the tile location (same values as `load_tile_metadata` reports later).
+        """
+        stats = os.lstat(tile_loc)
+        tile.timestamp = stats.st_mtime
+        tile.size = stats.st_size
 
     def __repr__(self):
         return '%s(%r, %r)' % (self.__class__.__name__, self.cache_dir, self.file_ext)
